@@ -2,5 +2,6 @@ pub mod c01;
 pub mod c05;
 pub mod c07;
 pub mod c08;
+pub mod c10;
 pub mod c17;
 pub mod swaps;
